@@ -71,7 +71,7 @@ META["C05"] = M(
 META["C06"] = M(
     shards={"quick": 16, "thorough": 64}, budget={"quick": 50, "thorough": 800},
     floors={"quick": {"evals": 4000, "distinct": 600}, "thorough": {"evals": 200000, "distinct": 30000}},
-    required=["inv-product", "solve", "inv-dense", "inv-transpose", "inv-left-product", "auto-switch-solve"],
+    required=["inv-product", "solve", "inv-dense", "inv-transpose", "inv-left-product", "auto-switch-solve", "solve-uses-the-requested-algorithm"],
     rule="well-conditioned (cond <= 300, by construction and re-checked on the reference) invertible operator trees over every kind "
          "with an inverse rule and their nestings, with/without PSD/Unitary declarations, real/complex/single/double, right-hand "
          "sides 1-D and multi-column, algorithm omitted/Auto/LU/Cholesky/CG/GMRES with tolerances 1e-3..1e-10; x = inv(A,alg)@b, "
@@ -249,7 +249,7 @@ META["C19"] = M(
 META["C20"] = M(
     shards={"quick": 16, "thorough": 64}, budget={"quick": 45, "thorough": 800},
     floors={"quick": {"evals": 15000, "distinct": 1500}, "thorough": {"evals": 600000, "distinct": 60000}},
-    required=["entries", "sub-operator-dense", "sub-operator-right-product", "sub-operator-left-product", "result-kind", "sub-operator-shape"],
+    required=["entries", "sub-operator-dense", "sub-operator-right-product", "sub-operator-left-product", "result-kind", "sub-operator-shape", "sub-operator-transpose", "sub-operator-reindexed"],
     rule="operator trees of every kind and nesting (as C01, clean), square / tall / wide with dimensions 1..6; index expressions "
          "A[i,j], A[i], A[i,:], A[i,slice], A[:,j], A[slice,j], A[slice,slice], A[slice], A[rows,cols] with integer index "
          "arrays (unsorted, repeated, negative), mixed array/slice, and A[[i..],[j..]] with lists; integers over [-n, n), slices "
